@@ -1544,7 +1544,10 @@ SPLICE = [b"c" + BAD.encode() + b"\nboom\n", b"cbuiltins\nint\n", b"cos\nsystem\
           b"\x82\x00", b"\x82\x05", b"\x83\x01\x00", b"\x84\xff\xff\xff\xff", b"\x8a\x02\x00\x01", b"\x8b\x01\x00\x00\x00\x7f",
           b"\x8b\xff\xff\xff\xff", b"\x80\x05", b"\x80\x06", b"\x94", b"h\x00", b"h\x01", b"q\x00", b"j\x00\x00\x00\x00", b"r\x01\x00\x00\x00",
           b"0", b"1", b"2", b".", b"N", b"\x88", b"\x89", b"]", b"}", b"\x8f", b"a", b"e", b"s", b"u", b"\x90", b"\x91", b"l", b"d",
-          b"\x86", b"\x87", b"J\xff\xff\xff\x7f", b"K\x01", b"M\x01\x02", b"G\x3f\xf8\x00\x00\x00\x00\x00\x00", b"\xff", b"\x00", b"\n"]
+          b"\x86", b"\x87", b"J\xff\xff\xff\x7f", b"K\x01", b"M\x01\x02", b"G\x3f\xf8\x00\x00\x00\x00\x00\x00", b"\xff", b"\x00", b"\n",
+          # text lines with bytes >= 128: INST is ASCII-strict (load_inst), GLOBAL is UTF-8 (load_global)
+          b"i\xe4\xb8\xad\nCls\n", b"ibuiltins\nl\xc3\xa9st\n", b"i" + BAD.encode() + b"\nb\xe9\n", b"c\xe4\xb8\xad\nCls\n",
+          b"cbuiltins\nl\xc3\xa9st\n", b"c" + BAD.encode() + b"\nb\xe9\n", b"\xe4\xb8\xad", b"\xc3\xa9"]
 
 
 def mutate_bytes(rng, data, others):
@@ -1962,6 +1965,14 @@ def fixed_programs(ctx, cfgs):
         [("PROTO", 2), S("<<" + BAD + ".boom>>"), ("BINPERSID",), ("EMPTY_TUPLE",), ("NEWOBJ",), ("STOP",)],
         [("PERSID", BAD + ".boom"), ("STOP",)],
         [("PROTO", 3), ("BINBYTES", b"<<NoneType>>"), ("BINPERSID",), ("STOP",)],
+        # load_inst decodes its two lines with PyUnicode_DecodeASCII, load_global with UTF-8: a byte >= 128 in an INST line is
+        # UnicodeDecodeError BEFORE find_class is asked (Bytes.c_iname), under GLOBAL the name is looked up (and refused)
+        [("MARK",), ("INST", "\u4e2d", "Cls"), ("STOP",)],
+        [("GLOBAL", "builtins", "complex"), ("POP",), ("MARK",), ("INST", BAD, "b\u00e9"), ("STOP",)],
+        [("MARK",), ("INST", "builtins", "l\u00e9st"), ("STOP",)],
+        [("MARK",), ("INST", "builtins", "list"), ("STOP",)],
+        [("GLOBAL", "\u4e2d", "Cls"), ("STOP",)],
+        [("GLOBAL", "builtins", "complex"), ("POP",), ("GLOBAL", BAD, "b\u00e9"), ("STOP",)],
     ]
     # calls of None (what every unknown persistent id is) raise TypeError: the oracle entries of those programs
     none_calls = [["reduce", None, ["T", []]], ["obj", None, ["T", [["s", "m"]]]]]
